@@ -41,13 +41,14 @@ def declare(node, sig):
     sig("aws_cache_script", c_int, c_long, c_int, POINTER(c_int), c_int)
     sig("aws_cache_broken", c_int, c_long, c_int)
     sig("aws_cache_evict", c_long, c_long, c_char_p)
-    sig("aws_cache_log", c_long, c_long, c_char_p, c_long)
-    sig("aws_gen_new", c_long, c_long, c_int, c_int, c_long, c_long)
+    sig("aws_seam_log", c_long, c_char_p, c_long)
+    sig("aws_cache_keys", c_long, c_long, c_char_p, c_long)
+    sig("aws_gen_new", c_long, c_long, c_int, c_int, c_long, c_long, c_char_p)
     sig("aws_gen_script", c_int, c_long, POINTER(c_int), c_int)
     sig("aws_gen_script_at", c_int, c_long, POINTER(c_int), c_int)
     sig("aws_gen_calls", c_long, c_long)
-    sig("aws_gen_log", c_long, c_long, c_char_p, c_long)
     sig("aws_virtual", c_long, c_long, c_long, c_char_p)
+    sig("aws_materialise", c_long, c_long)
     sig("aws_part", c_long, POINTER(c_long), POINTER(c_long), c_int)
     sig("aws_part_op", c_long, c_long, c_int, POINTER(c_long), c_int)
     sig("aws_part_text", c_long, c_long, c_int, c_char_p, c_long)
@@ -218,11 +219,16 @@ class Mixin:
             self.raise_last()
         return n
 
-    def cache_log(self, h):
-        return self.text_call(self.lib.aws_cache_log, h).decode()
+    def seam_log(self):
+        """ordered list of seam calls since the last read: ["cache get k0 hit", "gen k0 ok", ...]"""
+        return [ln for ln in self.text_call(self.lib.aws_seam_log).decode().split("\n") if ln]
 
-    def gen_new(self, truth, declare_form, declare_length, wrong=0, longer=0):
-        return self._h(self.lib.aws_gen_new(truth, 1 if declare_form else 0, 1 if declare_length else 0, wrong, longer))
+    def cache_keys(self, h):
+        return [k for k in self.text_call(self.lib.aws_cache_keys, h).decode().split(",") if k]
+
+    def gen_new(self, truth, declare_form, declare_length, wrong=0, longer=0, key="g"):
+        return self._h(self.lib.aws_gen_new(truth, 1 if declare_form else 0, 1 if declare_length else 0, wrong, longer,
+                                            key.encode()))
 
     def gen_script_at(self, h, script):
         if not self.lib.aws_gen_script_at(h, self._ints(script), len(script)):
@@ -234,11 +240,12 @@ class Mixin:
             self.raise_last()
         return n
 
-    def gen_log(self, h):
-        return self.text_call(self.lib.aws_gen_log, h).decode()
-
     def virtual(self, gen, cache, key):
         return self._h(self.lib.aws_virtual(gen, cache, key.encode()))
+
+    def materialise(self, h):
+        """the same tree with every VirtualArray replaced by what it stands for; no cache or generator is touched"""
+        return self._h(self.lib.aws_materialise(h))
 
     def part(self, parts, stops):
         return self._h(self.lib.aws_part(self._longs(parts), self._longs(stops), len(parts)))
